@@ -517,6 +517,10 @@ type Explorer struct {
 	Divergences  int
 	MapSites     map[string]bool
 	ThreadPoints int
+	// Shard / NShards split ONE exploration between processes: every shard runs the all-default execution, and the
+	// subtrees that start with the k-th first deviation belong to shard k mod NShards. Only shard 0 visits the root.
+	Shard, NShards int
+	rootChildren   int
 }
 
 // Explore runs body under every choice vector within the bounds; visit is called after each execution with
@@ -543,7 +547,11 @@ func (e *Explorer) explore(prefix []int, body func(prefix []int) Execution, visi
 		return
 	}
 	ex := body(prefix)
-	e.Executions++
+	root := len(prefix) == 0
+	mine := !root || e.NShards <= 1 || e.Shard == 0
+	if mine {
+		e.Executions++
+	}
 	if len(ex.Points) > e.MaxPoints {
 		e.MaxPoints = len(ex.Points)
 	}
@@ -566,7 +574,9 @@ func (e *Explorer) explore(prefix []int, body func(prefix []int) Execution, visi
 			e.ThreadPoints++
 		}
 	}
-	visit(choices, ex)
+	if mine {
+		visit(choices, ex)
+	}
 	if ex.Deadlock || ex.Divergence {
 		return
 	}
@@ -586,6 +596,12 @@ func (e *Explorer) explore(prefix []int, body func(prefix []int) Execution, visi
 				}
 				if np > e.MaxPreempt || nd > e.MaxMapDev || (e.MaxSwitch > 0 && ns > e.MaxSwitch) {
 					continue
+				}
+				if root && e.NShards > 1 {
+					e.rootChildren++
+					if (e.rootChildren-1)%e.NShards != e.Shard {
+						continue
+					}
 				}
 				next := make([]int, i+1)
 				copy(next, choices[:i])
